@@ -239,6 +239,9 @@ pub struct Stats {
     pub extra: BTreeMap<String, u64>,
     pub inconclusive: Vec<String>,
     pub sample_limit: usize,
+    /// sharding of *sequential* strata (parallel strata are sharded by index in `Ctx::par`)
+    pub seq_shard: (u64, u64),
+    pub seq: u64,
 }
 
 impl Stats {
@@ -262,6 +265,8 @@ impl Stats {
             extra: BTreeMap::new(),
             inconclusive: vec![],
             sample_limit: 40,
+            seq_shard: (0, 1),
+            seq: 0,
         }
     }
 
@@ -312,6 +317,12 @@ impl Stats {
     /// Evaluates one case through `f` inside the panic boundary.
     #[inline]
     pub fn eval<C: Case>(&mut self, c: &C, f: impl FnOnce(&mut Stats, &C)) {
+        if self.seq_shard.1 > 1 {
+            self.seq += 1;
+            if self.seq % self.seq_shard.1 != self.seq_shard.0 {
+                return;
+            }
+        }
         self.evals += 1;
         self.cur_evals += 1;
         let prev = IN_GUARD.with(|g| g.replace(true));
@@ -570,6 +581,8 @@ pub struct Ctx {
     pub seed: u64,
     pub threads: usize,
     pub profile: String,
+    /// (index, count): sanitizer legs split enumerations over several processes
+    pub shard: (u64, u64),
 }
 #[derive(Clone, Copy, PartialEq, Eq, Debug)]
 pub enum Tier {
@@ -596,6 +609,11 @@ impl Tier {
 }
 
 impl Ctx {
+    /// for sequential loops: is item `k` part of this shard?
+    #[inline]
+    pub fn mine(&self, k: u64) -> bool {
+        self.shard.1 <= 1 || k % self.shard.1 == self.shard.0
+    }
     /// Runs `body(stats, index, rng)` for every index in `lo..hi`, spread over the worker threads in
     /// chunks. All per-thread statistics are merged into `into`. The per-chunk PRNG is derived from
     /// (seed, stratum, chunk) so results do not depend on scheduling.
@@ -628,6 +646,9 @@ impl Ctx {
                         let b = (a + chunk).min(hi);
                         let mut rng = Rng::new(mix(mix(self.seed, sh), c));
                         for i in a..b {
+                            if self.shard.1 > 1 && (i - lo) as u64 % self.shard.1 != self.shard.0 {
+                                continue;
+                            }
                             body(&mut st, i, &mut rng);
                         }
                     }
